@@ -158,9 +158,6 @@ def c20_derive_half(c, tier):
             if ok: accepted_bad.append((src, s))
             elif any(d.get("code") is None for d in diags): by_derive += 1      # an error reported by the macro itself has no rustc code
             else: accepted_bad.append((src, s))   # only downstream rustc errors: the derive emitted an implementation instead of reporting
-    if rejected_good:
-        src, s, diags = rejected_good[0]
-        raise vlib.ToolError("a legal attribute sequence does not compile (legal-neighbour rule; renderer or derive problem outside C20): %s\n%s" % (src, diags[0]["rendered"][:500] if diags else ""))
     nneg = sum(1 for s in meta if not s["accept"])
     c.add("programs", len(jobs)); c.add("evaluations", nneg); c.add("negative_derive_programs", nneg); c.add("traces_validated_against_impl", len(jobs))
     c.cov["derive_negatives_rejected_by_macro_error"] = by_derive
@@ -169,3 +166,6 @@ def c20_derive_half(c, tier):
         src, s = accepted_bad[0]
         rp = c.replay_file("ill_formed_derive_accepted.rs", open(src).read())
         c.violation("derive-accepts", "%d ill-formed derive inputs are not rejected by the derive itself (they compile, or only fail later in rustc on the emitted implementation); first items: %s" % (len(accepted_bad), json.dumps(s["items"])), rp)
+    elif rejected_good:      # (a violation found above is reported first; this is about the renderer or about C13's ground)
+        src, s, diags = rejected_good[0]
+        raise vlib.ToolError("a legal attribute sequence does not compile (legal-neighbour rule; renderer or derive problem outside C20): %s\n%s" % (src, diags[0]["rendered"][:500] if diags else ""))
